@@ -51,7 +51,7 @@ type chunkedBodyWriter struct {
 func (c *chunkedBodyWriter) Write(p []byte) (n int, err error) {
 	if !c.wroteHeader {
 		c.r.Header.SetContentLength(-1)
-		if err = WriteHeader(&c.r.Header, c.w); err != nil {
+		if err = c.writeHeaderCopy(); err != nil {
 			return
 		}
 		c.wroteHeader = true
@@ -60,6 +60,21 @@ func (c *chunkedBodyWriter) Write(p []byte) (n int, err error) {
 		return
 	}
 	return len(p), nil
+}
+
+// writeHeaderCopy writes the header block into memory of the writer. WriteHeader
+// hands over the header's own scratch buffer, which a large block (zero-copy
+// above 4 KiB) would still reference at flush time, while the handler, which
+// goes on running after this write, may reuse it through any header setter.
+func (c *chunkedBodyWriter) writeHeaderCopy() error {
+	header := c.r.Header.Header()
+	c.r.Header.SetHeaderLength(len(header))
+	buf, err := c.w.Malloc(len(header))
+	if err != nil {
+		return err
+	}
+	copy(buf, header)
+	return nil
 }
 
 func (c *chunkedBodyWriter) Flush() error {
